@@ -558,6 +558,7 @@ func (m *Machine) runFrame(fr *Frame) {
 	}()
 	for {
 		blk := fr.block
+		m.curFrame = fr
 		instrs := blk.Instrs
 		// phis
 		k := 0
